@@ -64,6 +64,10 @@ CHECKS.update({
     'C13': dict(text='The full statement is REFUTED in the model (C13_crash_safe_refuted, C13_unsafe_points) and on the implementation (known finding D4\': six kill-point classes listed in known_findings.json); proved partial: a kill after the last effect is safe and loads the new value, and a kill never affects another key (C13_partial_*). The check kills a forked writer (os._exit) at every storage-effect boundary with buffered data lost/flushed and compares what is observable afterwards with the model; any unsafe kill point outside the listed classes is reported.',
                 design='6/C13', technique='Coq refutation + partial theorems; kill injection at every storage-effect boundary', note=CACHE_NOTE),
 })
+CHECKS['C20'] = dict(
+    text='Proved for every list of task trees: the structure has exactly one class block per task type reachable through parameters at any depth (C20_types), an arrow (A,p,B) exactly when some reachable task of type A holds a B task inside parameter p, once per block, flagged "many" exactly when in some such task p is not itself a task (C20_arrows_and_many); the work list is exactly the reachable tasks; determinism is by construction. The rendering to Mermaid text (format_type, field listing, run signature) is not modelled: the monitor parses the real diagram text back and checks blocks, parameters, run lines and arrows.',
+    design='6/C20', technique='Coq proof over worklist traversal and association-list updates + differential correspondence of TaskStructure.build',
+    note='Theorems are about Model/Diagram.v over Model/Values.v task trees. Tie: correspondence of TaskStructure.build (dict contents and insertion order) with Diagram.build on generated graphs; text rendering checked by parsing. Print Assumptions: closed.')
 NOT_YET = {}
 
 
